@@ -166,12 +166,14 @@ def uses_clean(F, body, uses, depth=3):
     return bad
 
 
-def run(ctx):
+def run(ctx, only_fields=None, rule_prefix="R14"):
+    """only_fields / rule_prefix: lets C03 reuse the reset-before-use analysis for the buffers that carry the dimension sets"""
+    R1, R2, R3, R4 = (rule_prefix + ".1", rule_prefix + ".2", rule_prefix + ".3", rule_prefix + ".4") if rule_prefix == "R14" else (rule_prefix,) * 4
     F = ctx.facts("dbg")
     roots, carr, bufs = carriers(F)
-    ctx.floor("R14.1", "Format implementors in the EMF crate", len(roots), 2)
+    ctx.floor(R1, "Format implementors in the EMF crate", len(roots), 2)
     entry_roots, bodies = reachable_bodies(F)
-    ctx.floor("R14.1", "bodies reachable from format / writer callbacks", len(bodies), 25)
+    ctx.floor(R1, "bodies reachable from format / writer callbacks", len(bodies), 25)
     # ---- collect accesses per (adt, field)
     acc = {}
     for b in bodies:
@@ -221,7 +223,7 @@ def run(ctx):
         for v in F.adts[a]["variants"]:
             for f in v["fields"]:
                 all_fields.append((a, f["name"], f))
-    ctx.floor("R14.1", "state fields of the formatter", len(all_fields), 15)
+    ctx.floor(R1, "state fields of the formatter", len(all_fields), 15)
     scratch, config = [], []
     for a, fn, f in all_fields:
         h = f.get("head", {})
@@ -235,8 +237,9 @@ def run(ctx):
             scratch.append((a, fn, us))
         else:
             config.append((a, fn))
-            ctx.ok("R14.1", "%s.%s#configuration" % (a, fn), "", "no write or mutable borrow reachable from format (%d reads)" % len(us))
-    ctx.floor("R14.1", "scratch fields discovered", len(scratch), 7)
+            if only_fields is None:
+                ctx.ok(R1, "%s.%s#configuration" % (a, fn), "", "no write or mutable borrow reachable from format (%d reads)" % len(us))
+    ctx.floor(R1, "scratch fields discovered", len(scratch), 7)
     # ---- the entry body: where the per-call writer borrows the whole state
     root_body = None
     u_pos = None
@@ -249,9 +252,11 @@ def run(ctx):
                     fe = field_elems(s["rv"]["place"], carr)
                     if fe and fe[-1][1][2] == "state" and fe[-1][0] == len(s["rv"]["place"]["p"]) - 1 and fe[-1][1][3] in roots:
                         root_body, u_pos = b, (i, j)
-    ctx.check(root_body is not None, "R14.2", "entry-body#whole-state-borrow", "", "cannot find the body that lends the formatter state to the per-call writer")
+    ctx.check(root_body is not None, R2, "entry-body#whole-state-borrow", "", "cannot find the body that lends the formatter state to the per-call writer")
     # ---- R14.2 per scratch field
     for a, fn, us in scratch:
+        if only_fields is not None and fn not in only_fields:
+            continue
         key = "%s.%s#clean-at-first-use" % (a, fn)
         # (a) reset in the entry body dominating the creation of the per-call writer
         if root_body is not None:
@@ -260,7 +265,7 @@ def run(ctx):
             if pre:
                 # every use in the entry body before the borrow must be a reset (or dominated by one)
                 early = [u for u in us if u.body is root_body and u.kind != "reset" and not any(pos_dominates(root_body, dom, r.pos(), u.pos()) for r in pre)]
-                ctx.check(not early, "R14.2", key, loc(root_body, pre[0].bb),
+                ctx.check(not early, R2, key, loc(root_body, pre[0].bb),
                           "scratch field %s is used in the entry body before it is reset" % fn,
                           "reset at the start of every call (dominates the per-call writer), %d uses downstream" % len(us))
                 continue
@@ -286,11 +291,13 @@ def run(ctx):
             how.append("%s: %d use(s)" % (b.name, len(bus)))
         if bad_all:
             u = bad_all[0]
-            ctx.bad("R14.2", key, loc(u.body, u.bb),
+            ctx.bad(R2, key, loc(u.body, u.bb),
                     "scratch field `%s` of the formatter is used in %s without a reset of it earlier in the same call (nor a reset on every "
                     "path after the use): its content can leak from a previously formatted entry" % (fn, u.body.path))
         else:
-            ctx.ok("R14.2", key, "", "reset before (or after) every use in the bodies that touch it: " + "; ".join(how))
+            ctx.ok(R2, key, "", "reset before (or after) every use in the bodies that touch it: " + "; ".join(how))
+    if only_fields is not None:
+        return EXPL
     # ---- R14.3 per-call writer is fresh
     if root_body is not None:
         pr = Prov(root_body)
@@ -303,9 +310,9 @@ def run(ctx):
                     for fname, op in zip(s["rv"].get("fields", []), s["rv"]["ops"]):
                         o = pr.operand(op)
                         leak = [x for x in o if x[0] == "arg" and x[1] == 1 and x[2] and x[2][-1] in scratch_names]
-                        ctx.check(not leak, "R14.3", "%s.%s#fresh" % (s["rv"]["adt"], fname), loc(root_body, i),
+                        ctx.check(not leak, R3, "%s.%s#fresh" % (s["rv"]["adt"], fname), loc(root_body, i),
                                   "per-call writer field `%s` is initialised from scratch state %s" % (fname, leak))
-        ctx.floor("R14.3", "per-call writer aggregates in the entry body", nagg, 1)
+        ctx.floor(R3, "per-call writer aggregates in the entry body", nagg, 1)
     # ---- R14.4 statics
     for st in F.statics:
         if st["crate"] != CR:
@@ -314,7 +321,7 @@ def run(ctx):
         ok = ("tracing_core::callsite" in ty or "tracing::" in ty or ty.startswith("core::sync::atomic::Atomic<u64>") or
               "tracing_core::metadata::Metadata" in ty or "tracing_core::field" in ty or
               ("::rate_limit::" in st["def"] and ty == "std::sync::once_lock::OnceLock<std::time::Instant>"))
-        ctx.check(ok and not st.get("thread_local") and not st.get("mutable"), "R14.4", strip_generics(st["def"]) + "#static", st["span"]["file"],
+        ctx.check(ok and not st.get("thread_local") and not st.get("mutable"), R4, strip_generics(st["def"]) + "#static", st["span"]["file"],
                   "unexpected static `%s: %s` in the formatter crate (hidden cross-call memory)" % (st["def"], ty))
     return EXPL
 
